@@ -7,6 +7,11 @@
 (* (half to even) yields A nearest node and that flooring it yields the    *)
 (* lower corner of the cell, and judges the indices returned by the        *)
 (* implementation with the declarative predicates (exact rationals).       *)
+(* Query points OUTSIDE the box (half-step lattice, OutM steps beyond every *)
+(* face): TLC decides that the rounded coordinates CLAMPED to the grid give *)
+(* a nearest node and judges the returned indices with the same predicate.  *)
+(* Grids may carry a denominator den (non-integer origin / steps) and a     *)
+(* representation tag for the harness (integer arrays).                     *)
 (***************************************************************************)
 EXTENDS Cubic, Json, Obs_closest      \* ClosestObs, ClosestOutObs (generated; <<>> when emitting)
 
